@@ -731,6 +731,24 @@ pub fn truncate(s: &str, n: usize) -> String {
     }
 }
 
+/// Write one replay file (used by the libFuzzer targets).
+pub fn write_replay(ctx: &Ctx, input: &Input, f: &Failure, tag: &str) -> PathBuf {
+    let rdir = ctx.verif_dir.join("replays");
+    let _ = std::fs::create_dir_all(&rdir);
+    let name = format!("{}-{}-{:016x}.json", ctx.prop, tag, mix(ctx.seed, fnv(f.signature.as_bytes())));
+    let p = rdir.join(name);
+    let body = json!({
+        "property": ctx.prop,
+        "signature": f.signature,
+        "detail": f.detail,
+        "input": input.to_json(),
+        "seed": ctx.seed,
+        "tier": "thorough",
+    });
+    let _ = std::fs::write(&p, serde_json::to_string_pretty(&body).unwrap());
+    p
+}
+
 /// Load replay files of the regression corpus for this property.
 pub fn load_regress(ctx: &Ctx) -> Vec<(PathBuf, Input, String)> {
     let dir = ctx.verif_dir.join("corpus/regress").join(&ctx.prop);
